@@ -11,6 +11,7 @@ import CoapVerif.Generated.BlockConst
 -- DRIVER-OPS: rb => Coap.Driver.Block.rbStep
 -- DRIVER-OPS: body => Coap.Driver.Block.bodyStep
 -- DRIVER-OPS: srcv => Coap.Driver.Block.srcvStep
+-- DRIVER-OPS: srcv2 => Coap.Driver.Block.srcv2Step
 namespace Coap.Driver.Block
 open Coap Coap.Block
 
@@ -95,8 +96,20 @@ def srcvRun (szx : Nat) (body : Bytes) (size1 : Option Nat) :
       let plen := match tl with
         | [l] => if l ≤ body.length - off then l else plen0
         | _ => plen0
-      let (st', o) := srcvStep Coap.Generated.rblockCnt 0 st num m szx ((body.drop off).take plen) size1
+      let (st', o) := srcvStep Coap.Generated.rblockCnt 0 0 st num m szx ((body.drop off).take plen) size1
       srcvRun szx body size1 rest st' (showOut o m :: acc)
+    | _ => ("bad-op" :: acc).reverse
+
+/-- `srcv2`: every step carries its own SZX (`num.m.szx`), payload = the genuine slice -/
+def srcv2Run (maxBlk : Nat) (body : Bytes) (size1 : Option Nat) :
+    List (List Nat) → Option Srcv → List String → List String
+  | [], _, acc => acc.reverse
+  | it :: rest, st, acc =>
+    match it with
+    | [num, m, szx] =>
+      let chunk := 2 ^ (szx + 4)
+      let (st', o) := srcvStep Coap.Generated.rblockCnt 0 maxBlk st num m szx ((body.drop (num * chunk)).take chunk) size1
+      srcv2Run maxBlk body size1 rest st' (showOut o m :: acc)
     | _ => ("bad-op" :: acc).reverse
 
 def srcvStepLine (szx bodyLen seed : Nat) (size1 : Option Nat) (seq : String) : String :=
@@ -163,8 +176,16 @@ def step (op : String) (args : List String) : String :=
     | some szx, some bodyLen, some seed =>
       "M " ++ srcvStepLine szx bodyLen seed (if d = "-" then none else nat? d) seq
     | _, _, _ => "bad-op"
+  | "srcv2", [a, b, c, d, seq] =>
+    match nat? a, nat? b, nat? c with
+    | some maxBlk, some bodyLen, some seed =>
+      match (seq.split (· == ',')).toList.mapM (fun x => splitNats x.toString '.') with
+      | none => "bad-op"
+      | some its => "M " ++ String.intercalate "," (srcv2Run maxBlk (mkBody bodyLen seed) (if d = "-" then none else nat? d) its none [])
+    | _, _, _ => "bad-op"
   | _, _ => "bad-op"
 
+def srcv2Step (args : List String) : String := step "srcv2" args
 def boptStep (args : List String) : String := step "bopt" args
 def bencStep (args : List String) : String := step "benc" args
 def setupStep (args : List String) : String := step "setup" args
